@@ -99,7 +99,7 @@ class ExtendedEOF(EOF):
         self.pca = (
             EOF(
                 n_modes=n_pca_modes,
-                center=True,
+                center=center,
                 standardize=False,
                 use_coslat=False,
                 compute=self._params["compute"],
@@ -136,9 +136,11 @@ class ExtendedEOF(EOF):
 
         # Perform standard PCA on extended data
         n_modes = self._params["n_modes"]
+        # The lagged copies are re-centred after the tail samples are cut,
+        # unless the user asked for an uncentred analysis
         model = EOF(
             n_modes=n_modes,
-            center=True,
+            center=self._params["center"],
             standardize=False,
             use_coslat=False,
             compute=self._params["compute"],
